@@ -50,6 +50,7 @@ type worker[T any, JobType iJob[T]] struct {
 	waiters         *sync.Cond
 	tickers         []*time.Ticker
 	mx              sync.RWMutex
+	restartMx       sync.Mutex
 	ctx             context.Context
 	cancel          context.CancelFunc
 	Configs         configs
@@ -438,7 +439,19 @@ func (w *worker[T, JobType]) goListenToContext() {
 	go func(c context.Context) {
 		<-c.Done()
 
-		w.Stop()
+		// Restart cancels the context of the previous run and installs a new one: a listener of
+		// a previous run must not stop the restarted worker. restartMx keeps Restart from
+		// replacing the context between the check and the Stop.
+		w.restartMx.Lock()
+		defer w.restartMx.Unlock()
+
+		w.mx.RLock()
+		current := w.ctx == c
+		w.mx.RUnlock()
+
+		if current {
+			w.Stop()
+		}
 	}(w.ctx)
 }
 
@@ -619,6 +632,9 @@ func (w *worker[T, JobType]) NumPending() int {
 }
 
 func (w *worker[T, JobType]) Restart() error {
+	w.restartMx.Lock()
+	defer w.restartMx.Unlock()
+
 	// If worker is running, pause and wait for ongoing processes
 	switch w.status.Load() {
 	case running:
